@@ -76,6 +76,7 @@ type gen struct {
 	usedExterns []string
 	npOrd map[string]int
 	callResults map[string][]T
+	callArgsRec map[string][]T
 	escaped map[*ssa.Alloc]bool
 	nfa int
 	uncontracted []string
